@@ -401,6 +401,65 @@ theorem pso_personal_best_arrays_aligned (cfg : Cfg α) (half : α) (top : β) (
       · simp [setUp, hc]
   exact H calls hd none (by simp) sw h
 
+/-- the losses particle `j` reads from its own slot along a sequence of update calls (every call is handed a non-empty history) -/
+def ownLossesAlong (cfg : Cfg α) (half : α) (top : β) (lo hi : List α) (j : Nat) : Swarm α β → List (Call α β) → List β
+  | _, [] => []
+  | s, c :: cs =>
+    (match ownSlot cfg.bs s c.points c.losses j with
+      | some pl => [pl.2]
+      | none => []) ++
+    ownLossesAlong cfg half top lo hi j (sampleBatch cfg 0 1 half top lo hi (some s) c.d0 c.d1 c.points c.losses).1 cs
+
+theorem foldl_min_map {γ : Type} [LinearOrder γ] (b : Option γ) (l : List γ) (x : γ) :
+    (b.map (fun v => min v x)).map (fun v => l.foldl min v) = b.map (fun v => (x :: l).foldl min v) := by
+  cases b <;> simp
+
+/-- **a particle's personal-best loss is the smallest loss it has ever read from its own slot of the history** — over any number of
+update calls, any histories and any draws; which rows those slots are is `ownSlot_is_history_row` (row `previous_start + j`, where
+`previous_start` is the length of the history handed to the previous call: `sampleBatch_prevStart`) -/
+theorem pso_personal_best_is_min_of_own_losses (cfg : Cfg α) (half : α) (top : β) (lo hi : List α) (j : Nat)
+    (calls : List (Call α β)) (hne : ∀ c ∈ calls, c.points.length ≠ 0) (s : Swarm α β) :
+    ∀ sw, runCalls cfg half top lo hi (some s) calls = some sw →
+      sw.bestLoss[j]? = (s.bestLoss[j]?).map (fun b => (ownLossesAlong cfg half top lo hi j s calls).foldl min b) := by
+  induction calls generalizing s with
+  | nil =>
+    intro sw h
+    simp only [runCalls, Option.some.injEq] at h
+    subst h
+    cases s.bestLoss[j]? <;> simp [ownLossesAlong]
+  | cons c cs ih =>
+    intro sw h
+    simp only [runCalls] at h
+    have hc : c.points.length ≠ 0 := hne c List.mem_cons_self
+    have hstep : (sampleBatch cfg 0 1 half top lo hi (some s) c.d0 c.d1 c.points c.losses).1.bestLoss[j]? =
+        match ownSlot cfg.bs s c.points c.losses j with
+        | some pl => (s.bestLoss[j]?).map (fun bl => min bl pl.2)
+        | none => s.bestLoss[j]? := by
+      have : (sampleBatch cfg 0 1 half top lo hi (some s) c.d0 c.d1 c.points c.losses).1.bestLoss =
+          (updateBest cfg.bs s c.points c.losses).bestLoss := by
+        unfold sampleBatch
+        simp only [hc, if_false, doStep]
+      rw [this]
+      exact updateBest_bestLoss cfg.bs s c.points c.losses j
+    rw [ih (fun c' hc' => hne c' (List.mem_cons_of_mem _ hc')) _ sw h, hstep]
+    simp only [ownLossesAlong]
+    cases hos : ownSlot cfg.bs s c.points c.losses j with
+    | none => simp
+    | some pl =>
+      simp only [List.singleton_append]
+      exact foldl_min_map _ _ _
+
+/-- the cursor after a call is the length of the history the call was handed -/
+theorem sampleBatch_prevStart (cfg : Cfg α) (half : α) (top : β) (lo hi : List α) (s : Option (Swarm α β))
+    (d0 d1 points : List (List α)) (losses : List β) :
+    (sampleBatch cfg 0 1 half top lo hi s d0 d1 points losses).1.prevStart = points.length := by
+  unfold sampleBatch
+  split
+  · split
+    · rename_i h; simp [setUp, h]
+    · rfl
+  · simp [setUp]
+
 /-- **after a step every position lies in the unit cube and the raw proposal within the declared bounds**: for a swarm that has
 started and a non-empty history, whatever the state, the draws and the history -/
 theorem pso_step_in_unit_cube_and_bounds (cfg : Cfg α) (half : α) (top : β) (lo hi : List α) (sw : Swarm α β)
